@@ -192,6 +192,17 @@ func getName(nodeSet NodeSet, ok bool, nameType nameType) (Result, error) {
 		return String(fmt.Sprintf("{%s}%s", n.Space(), n.Local())), nil
 	}
 
+	if nameType != namespaceOnly {
+		// The name of a processing instruction is its target, the name of a
+		// namespace node is its prefix; neither has a namespace URI.
+		switch n := firstNode.Node().(type) {
+		case node.ProcInst:
+			return String(n.Target()), nil
+		case node.Namespace:
+			return String(n.Prefix()), nil
+		}
+	}
+
 	return String(""), nil
 }
 
